@@ -333,6 +333,9 @@ class PrimitiveEquationsSpecs:
     """Rescales and casts the given non-dimensional value to timedelta64."""
     base_unit = 's'  # return value is rounded down to nearest base_unit
     dt = self.scale.dimensionalize(value, units(base_unit)).m
+    # remove floating point round-off (at microsecond resolution) first, so that
+    # whole-second durations are not rounded down to the previous second.
+    dt = np.round(dt, 6)
     if isinstance(dt, np.ndarray):
       return dt.astype(f'timedelta64[{base_unit}]')
     else:
